@@ -68,6 +68,8 @@ def generate(ctx):
                 ops.append(["clear", t])
             elif r < 0.975:
                 ops.append(["drop_trainer", t])
+            elif r < 0.985:
+                ops.append(["drop_layer", rng.choice(["s1", "s2"])])
             else:
                 ops.append(["listings", t])
         if rng.random() < 0.35:
@@ -81,6 +83,20 @@ def generate(ctx):
             pre.append(rng.choice([["add_monitor", t0, b, attr, 0, True], ["del_monitor", t0, b, 0], ["del_cell", t0, b],
                                    ["replace_trainer_monitor", t0, b]]))
             pre += [["layer_step", "bi"], ["layer_step", "bi"], ["trainer_step", t0]]
+            ops = pre + ops
+        elif rng.random() < 0.3:
+            # directed prefix around a cell that dies WITHOUT removal (its layer loses its last reference): the trainer's other
+            # cells keep recording, keep their own state and monitors, and survive mode switches
+            t0 = 0
+            first, second = rng.choice([(4, 5), (5, 4), (4, 0), (5, 3)])
+            dead_layer = cells[first][0]
+            live_layer = cells[second][0]
+            pre = [["register_cell", t0, first], ["register_cell", t0, second], ["layer_step", dead_layer], ["layer_step", live_layer],
+                   ["add_monitor", t0, second, "neuron.spike", 0, False], ["drop_layer", dead_layer], ["layer_step", live_layer],
+                   ["listings", t0]]
+            if rng.random() < 0.6:
+                pre += [["trainer_mode", t0, False], ["layer_step", live_layer], ["trainer_mode", t0, True]]
+            pre += [["layer_step", live_layer], ["trainer_step", t0], ["listings", t0]]
             ops = pre + ops
         yield {"kinds": kinds, "ops": ops, "seed": rng.randrange(1 << 30), "cells": cells}
 
@@ -147,6 +163,7 @@ def run_case(ctx, desc):
     seen = [dict() for _ in kinds]         # per trainer: cell name -> layer steps recorded since registration / clear
     cells = [tuple(c) for c in desc["cells"]]
     name_of = lambda ci: f"cell{ci}"
+    had_dead = [False] * len(kinds)        # per trainer: a registered cell died without del_cell (its monitors stay listed)
     ever = {}                              # cell index -> trainers that ever registered it (cell-level monitor registry is shared)
 
     def mstdpet_registry_shared():
@@ -165,7 +182,11 @@ def run_case(ctx, desc):
         """one operation in its own scope: no local reference (trainer, monitor, list) may outlive it"""
         rdesc = {**desc, "ops": desc["ops"][: oi + 1]}
         k = op[0]
-        ti = op[1] if k not in ("layer_mode", "layer_step") else None
+        ti = op[1] if k not in ("layer_mode", "layer_step", "drop_layer") else None
+        if k in ("layer_mode", "layer_step", "drop_layer") and w.layers[op[1]] is None:
+            return None
+        if k in ("register_cell", "del_cell", "add_monitor", "replace_trainer_monitor") and w.layers[cells[op[2]][0]] is None:
+            return None
         if ti is not None and not alive[ti]:
             return None
         tk = kinds[ti] if ti is not None else "-"
@@ -245,6 +266,22 @@ def run_case(ctx, desc):
                     ctx.count("clear_checks")
                     if mon.peek() is not None:
                         return ctx.violation("clear.monitor_not_cleared", f"after trainer.clear() monitor '{mn}' of {cn} still holds data", rdesc)
+            elif k == "drop_layer":
+                # drop-last-reference-and-collect on a whole layer: its cells die without del_cell
+                lname = op[1]
+                ndead = sum(1 for r in reg for ci in r.values() if cells[ci][0] == lname)
+                ctx.case(f"drop_layer/{lname}/registered_cells{min(ndead, 3)}/trainers{sum(alive)}")
+                if ndead:
+                    ctx.count("cells_died_without_removal", ndead)
+                w.layers[lname] = None
+                gc.collect()
+                for ti2 in range(len(kinds)):
+                    for cn in [cn for cn, ci in reg[ti2].items() if cells[ci][0] == lname]:
+                        del reg[ti2][cn]
+                        seen[ti2].pop(cn, None)
+                        had_dead[ti2] = True
+                        for key in [p for p in probes[ti2] if p[0] == cn]:
+                            del probes[ti2][key]
             elif k == "drop_trainer":
                 ctx.case(f"drop_trainer/{tk}/n{len(reg[ti])}")
                 trainers[ti] = None
@@ -260,13 +297,29 @@ def run_case(ctx, desc):
                 if named_cells != sorted(reg[ti]) or ncells != len(reg[ti]):
                     return ctx.violation("listing.cells_ne_registered", f"named_cells {named_cells} registered {sorted(reg[ti])}", rdesc)
                 exp_named = sorted((c, m) for c, m, _ in slots(ti))
-                got_named = sorted(k2 for k2, _ in trn.named_monitors)
+                # monitors of a cell that died without removal stay in the pool until its name is reused: judged for live cells
+                got_named = sorted(k2 for k2, _ in trn.named_monitors if not had_dead[ti] or k2[0] in reg[ti])
                 if got_named != exp_named:
                     return ctx.violation("listing.named_monitors_ne_registered", f"{got_named} vs {exp_named}", rdesc)
                 mons = list(trn.monitors)
                 exp_ids = {id(m) for _, _, m in slots(ti)}
-                if {id(m) for m in mons} != exp_ids or len(mons) != len(exp_ids):
+                got_ids = {id(m) for m in mons}
+                if (not exp_ids <= got_ids) if had_dead[ti] else (got_ids != exp_ids or len(mons) != len(exp_ids)):
                     return ctx.violation("listing.monitors_ne_registered", "monitors does not list exactly the registered monitor objects", rdesc)
+                if hasattr(trn, "get_unit"):
+                    # iterating the trainer lists (cell, auxiliary state, monitors) per registered cell: each cell with its own
+                    units = list(trn)
+                    ctx.count("unit_listing_checks")
+                    if len(units) != len(reg[ti]):
+                        return ctx.violation("listing.units_ne_registered", f"{len(units)} units for {len(reg[ti])} registered cells", rdesc)
+                    for (ucell, ustate, umons), (cn, (rcell, rstate)) in zip(units, list(trn.named_cells)):
+                        exp_m = dict(trn.named_monitors_of(cn))
+                        gu = trn.get_unit(cn)
+                        if (ucell is not rcell or ucell is not gu.cell or ustate is not gu.state or ustate is not rstate
+                                or set(umons) != set(exp_m)
+                                or any(umons[k2] is not exp_m[k2] for k2 in exp_m)):
+                            return ctx.violation("listing.unit_pairs_cell_with_foreign_state_or_monitors",
+                                                 f"iterating the trainer pairs cell '{cn}' with another cell's auxiliary state / monitors", rdesc)
             elif k == "trainer_update":
                 if not reg[ti]:
                     return None
